@@ -17,7 +17,8 @@ for i in range(S.budget):
     secs = pg.gen_sections(rng)
     sp = pc.random_slurry_params(rng)
     try:
-        pl = pc.make_pipeline(rng, secs, sp)
+        rec = {}
+        pl = pc.make_pipeline(rng, secs, sp, record=rec)
         stage = 'constructed'
         r = rng.random()
         if r < 0.35:
@@ -33,7 +34,7 @@ for i in range(S.budget):
     except Exception as e:
         S.count(None, 'exception:' + type(e).__name__)
         continue
-    where = {'sections': secs, 'slurry': sp, 'Cv': pl.slurry.Cv, 'Q': Q, 'stage': stage}
+    where = {'sections': secs, 'slurry': sp, 'Cv': pl.slurry.Cv, 'Q': Q, 'stage': stage, **rec}
     for n, g, w in zip(NAMES, got, want):
         if not close(g, w, 1e-8):
             S.violation('C09:sum:' + n, f'{stage}: {n} at Q={Q:.4f}: pipeline reports {g}, sum of parts gives {w}', input=where)
